@@ -143,7 +143,7 @@ func verifyFunc(p *Program, fn *ssa.Function, fc *FuncContract) (u *UnitResult) 
 		env *Env
 		st  *state
 	}
-	var envs []retEnv
+	var envs, lenvs []retEnv
 	for _, r := range fr.rets {
 		ext := map[string]T{}
 		if len(names) == 0 {
@@ -171,10 +171,41 @@ func verifyFunc(p *Program, fn *ssa.Function, fc *FuncContract) (u *UnitResult) 
 		env := fr.specEnv(r.st, ext)
 		env.calleeScope = true
 		envs = append(envs, retEnv{env, r.st})
+		lenv := fr.specEnv(r.st, ext)
+		lenv.atBlock = r.block
+		lenvs = append(lenvs, retEnv{lenv, r.st})
 	}
 	for ri, re := range envs {
 		vo := vc.oblige("vacuity.return", fmt.Sprintf("ret%d", ri+1), name, re.st.reach, "false", "")
 		vo.Vacuity = true
+	}
+	// ghost I/O state (bytes consumed / written, scanner lines): a function that advances it must say so with
+	// "modifies ghost <name>", otherwise its callers would keep believing the old value
+	if !fr.modAll && !fc.FrameOnly {
+		declared := map[string]bool{}
+		for _, m := range fc.Modifies {
+			if strings.HasPrefix(m, "ghost ") {
+				declared["G_"+strings.TrimSpace(m[6:])] = true
+			}
+		}
+		for _, g := range []string{"G_consumed", "G_written", "G_lastSlice", "G_lastInt"} {
+			if declared[g] {
+				continue
+			}
+			if _, reg := vc.heapNames[g]; !reg {
+				continue
+			}
+			var parts []string
+			e0 := vc.heapGetQuiet(fr.entry, g)
+			for _, r := range fr.rets {
+				if cur := vc.heapGetQuiet(r.st, g); cur != e0 {
+					parts = append(parts, implies(r.st.reach, fmt.Sprintf("(= %s %s)", cur, e0)))
+				}
+			}
+			if len(parts) > 0 {
+				vc.oblige("frame.ghost", strings.TrimPrefix(g, "G_"), name, "true", and(parts...), "")
+			}
+		}
 	}
 	for i, en := range fc.Ensures {
 		lab := en.Label
@@ -182,11 +213,48 @@ func verifyFunc(p *Program, fn *ssa.Function, fc *FuncContract) (u *UnitResult) 
 			lab = fmt.Sprintf("post%d", i+1)
 		}
 		var parts []string
-		for _, re := range envs {
+		use := envs
+		if en.Local {
+			use = lenvs
+		}
+		evaluated := 0
+		for _, re := range use {
+			if en.Local {
+				// a return where a local of the clause is not yet in scope: for "A ==> B" the consequent
+				// cannot be established there, so the antecedent must be false at that return
+				g, ok := tryEvalBool(re.env, en.E)
+				if !ok {
+					imp, isImp := en.E.(*EBinary)
+					if !isImp || imp.Op != "==>" {
+						stale("exit clause %s mentions a local that is not in scope at some return and is not an implication", lab)
+					}
+					g = not(re.env.evalBool(imp.X))
+				} else {
+					evaluated++
+				}
+				parts = append(parts, implies(re.st.reach, g))
+				continue
+			}
 			parts = append(parts, implies(re.st.reach, re.env.evalBool(en.E)))
+		}
+		if en.Local && evaluated == 0 {
+			stale("exit clause %s: its locals are in scope at no return", lab)
 		}
 		if len(parts) == 0 {
 			continue
+		}
+		// cover: the antecedent of "A ==> B" must be reachable at some return, or the clause says nothing
+		if imp, isImp := en.E.(*EBinary); isImp && imp.Op == "==>" {
+			var covers []string
+			for _, re := range use {
+				if g, ok := tryEvalBool(re.env, imp.X); ok {
+					covers = append(covers, and(re.st.reach, g))
+				}
+			}
+			if len(covers) > 0 {
+				co := vc.oblige("vacuity.antecedent", lab, name, "true", not(or(covers...)), "")
+				co.Vacuity = true
+			}
 		}
 		o := vc.oblige("ensures", lab, name, "true", and(parts...), fmt.Sprintf("%s:%d", en.File, en.Line))
 		o.Values = fr.inputs
@@ -274,4 +342,17 @@ func (p *Program) ifaceContract(c *ssa.CallCommon) *FuncContract { return nil }
 func (fr *frame) ifaceModularCall(ic *FuncContract, c *ssa.CallCommon, args []T, st *state, pos string) []T {
 	bail("interface contracts not implemented")
 	return nil
+}
+
+func tryEvalBool(env *Env, e Expr) (g string, ok bool) {
+	defer func() {
+		if r := recover(); r != nil {
+			if se, is := r.(staleErr); is && strings.Contains(se.msg, "unknown identifier") {
+				ok = false
+				return
+			}
+			panic(r)
+		}
+	}()
+	return env.evalBool(e), true
 }
